@@ -148,6 +148,31 @@ def r_agg(E):
             f"the recorded parents of the total, so a component whose footprint is empty (or filtered out) when the total "
             f"is computed is no ancestor of it, and a later value edit that gives it a footprint does not recompute the "
             f"total", rel, t.lineno, "System.update_total_footprint"))
+    # … entry by entry: pairing the entries of the two dictionaries by position (zip of their values) is only the same
+    # thing when, in every category, both dictionaries are built over the same collection
+    res.instances += 1
+    for z in [n for n in ast.walk(utf) if isinstance(n, ast.Call) and isinstance(n.func, ast.Name)
+              and n.func.id in ("zip", "zip_longest") and len(n.args) >= 2]:
+        sides = set()
+        for a in z.args:
+            for x in ast.walk(expanded(a, utf)):
+                if isinstance(x, (ast.Attribute, ast.Name)):
+                    w = which(x)
+                    if w:
+                        sides.add(w)
+        if sides != set(DICTS):
+            continue
+        visited |= sides
+        fabv, env_ = views.get("fabrication_footprints"), views.get("energy_footprints")
+        differing = [cat for cat in sorted(ref) if fabv and env_ and
+                     (fabv[0].get(cat) or (None,))[0] != (env_[0].get(cat) or (None,))[0]]
+        if differing:
+            res.findings.append(Finding(
+                "R-AGG", "PAIR System.update_total_footprint",
+                f"update_total_footprint pairs the entries of fabrication_footprints and energy_footprints by position "
+                f"(`{norm(z)[:70]}`), but in {differing} the two dictionaries are not built over the same collection: zip "
+                f"stops at the shorter one and the remaining objects' footprints are left out of the total", rel, z.lineno,
+                "System.update_total_footprint"))
     if visited != set(DICTS):
         res.findings.append(Finding("R-AGG", "KEYS System.update_total_footprint",
                                     "update_total_footprint no longer sums both the fabrication and the energy entry of "
@@ -221,7 +246,7 @@ def r_agg(E):
                         f"{c} computes {attr} but no category of System.{d} iterates a collection that can contain a {c}: "
                         f"its footprint is missing from the system total", rel, views[d][1].lineno, f"System.{d}"))
     res.breakdown = {"categories": cats}
-    res.floor = 20
+    res.floor = 21
     return res
 
 
@@ -861,6 +886,11 @@ def r_json_dispatch(E):
     built = {c.func.id for c in nodes_through_helpers(fn, find_function=pm.package_function_finder())
              if isinstance(c, ast.Call) and isinstance(c.func, ast.Name) and c.func.id in explainable}
     if len(built) < 3:
+        # the reader may be a table of small reader functions: whatever the loader module constructs
+        mod_tree = next(t for m, (r, t, _) in pm.modules.items() if r == rel)
+        built = {c.func.id for c in ast.walk(mod_tree) if isinstance(c, ast.Call) and isinstance(c.func, ast.Name)
+                 and c.func.id in explainable}
+    if len(built) < 3:
         raise AnalysisError(f"R-JSON-DISPATCH: the loader constructs only {sorted(built)}")
     # classes an original model can hold but a reloaded one cannot: proper subclasses of a rebuilt class, never rebuilt
     lost = {cn for cn in explainable - built if any(b in built for b in pm.mro(cn)[1:])}
@@ -898,4 +928,67 @@ def r_json_dispatch(E):
                             pm.path_of(cn), n.lineno, f"{cn}.{m.name}"))
     res.samples = [{"rebuilt_by_the_loader": sorted(built), "never_rebuilt": sorted(lost)}]
     res.floor = 5
+    return res
+
+
+# ---------------------------------------------------------------------------------------------- R-JSON-WALK (C13)
+@rule("R-JSON-WALK")
+def r_json_walk(E):
+    pm = E.pm
+    res = RuleResult("R-JSON-WALK", "the walk that decides which objects are saved follows links only — a model object, or a "
+                                    "list whose elements are model objects — or skips the attributes the writer skips; it "
+                                    "never descends into nested containers: the bookkeeping attributes excluded from the "
+                                    "update logic (System.all_changes / previous_change: lists of [old, new] pairs) hold "
+                                    "objects that edits removed from the system")
+    from ..astutil import nodes_through_helpers
+    rel, fn = pm.find_function("api_utils/system_to_json.py", "recursively_write_json_dict")
+    finder = pm.function_finder(rel)
+    # bookkeeping attributes that can hold model objects without being links: excluded names initialised to a container
+    # / None in a constructor
+    book = set()
+    for c in pm.ALL + ["System"]:
+        if c not in pm.classes:
+            continue
+        for a in pm.no_update_attrs(c):
+            ai = pm.init_attrs(c).get(a)
+            if ai is not None and isinstance(ai.node.value, (ast.List, ast.Dict)) or (
+                    ai is not None and isinstance(ai.node.value, ast.Constant) and ai.node.value.value is None):
+                book.add(a)
+    book -= {"name", "id"}
+    res.instances += 1
+    if not book:
+        res.samples.append({"bookkeeping_attributes": []})
+        res.floor = 1
+        return res
+    nodes = nodes_through_helpers(fn, find_function=finder, depth=3)
+    filters_names = any(isinstance(n, ast.Attribute) and n.attr == "attributes_that_shouldnt_trigger_update_logic" for n in nodes) \
+        or any(isinstance(n, ast.Constant) and n.value in book for n in nodes)
+    # deep descent: a helper of the walk that calls itself on the elements / keys of what it was given
+    deep = None
+    helpers = {fn.name: fn}
+    for n in ast.walk(fn):
+        if isinstance(n, ast.Name) and finder(n.id) is not None:
+            helpers[n.id] = finder(n.id)
+    for h in list(helpers.values()):
+        for n in ast.walk(h):
+            if isinstance(n, ast.Name) and finder(n.id) is not None:
+                helpers.setdefault(n.id, finder(n.id))
+    for name, h in helpers.items():
+        if h is fn:
+            continue
+        for c in ast.walk(h):
+            if isinstance(c, ast.Call) and isinstance(c.func, ast.Name) and c.func.id == name:
+                deep = (h, c)
+    res.instances += 1
+    if deep is not None and not filters_names:
+        h, c = deep
+        res.findings.append(Finding(
+            "R-JSON-WALK", f"{h.name} descends into nested containers",
+            f"{h.name} (used by recursively_write_json_dict to find the objects to save) calls itself on the elements of "
+            f"the containers it meets (`{norm(c)[:60]}`) and no attribute is skipped by name: it reaches "
+            f"{sorted(book)[:4]}, whose nested [old, new] pairs hold objects that edits removed from the system — they are "
+            f"saved, reloaded as orphans and dropped by the next export", rel, c.lineno, h.name))
+    res.samples.append({"bookkeeping_attributes": sorted(book), "walk_filters_by_name": filters_names,
+                        "recursive_container_helper": deep[0].name if deep else None})
+    res.floor = 2
     return res
